@@ -180,6 +180,12 @@ impl Area for ConcVec {
              vec!["cvec prog=with:a,rm:a,hinc|collect,collect sseed=12".into()], vec!["cvec prog=hinc,with:b,reset,hinc,hinc|collect|with:b,collect sseed=31".into()]]
     }
     fn gen(&self, rng: &mut Rng, _thorough: bool, _stats: &mut Stats) -> Vec<String> {
+        // two first requests for one key while another key comes and goes (the map's size is the same before and after): any shortcut of the
+        // second lookup that keys on something coarser than the key itself is exposed by this shape
+        if rng.chance(15) { _stats.hit("shape:two-creators-one-remover");
+            let mut t = vec![*rng.pick(&["with:b,with:a", "with:b,with:a,hinc"]), *rng.pick(&["with:a", "with:a,hinc", "with:a,collect"]), *rng.pick(&["rm:b", "rm:b,collect", "with:b,rm:b"])];
+            rng.shuffle(&mut t);
+            return vec![format!("cvec prog={} sseed={}", t.join("|"), rng.next() % 1_000_000)]; }
         let nt = rng.range(2, 3);
         // `hinc` = an update through the handle this thread obtained last (kept across removals / resets)
         let prog: Vec<String> = (0..nt).map(|_| { let n = rng.range(1, 3); (0..n).map(|_| { let k = *rng.pick(&["a", "a", "b"]);
